@@ -23,3 +23,20 @@ void c05_plain(int simd, int v2, unsigned outw, u8 *inrow, u8 *out0, u8 *out1)
   if (v2) { if (simd) jsimd_h2v2_upsample(&dc, &comp, in, &op); else h2v2_upsample(&dc, &comp, in, &op); }
   else    { if (simd) jsimd_h2v1_upsample(&dc, &comp, in, &op); else h2v1_upsample(&dc, &comp, in, &op); }
 }
+
+void c05_fancy_rows(int simd, int v2, unsigned w, int max_v, u8 **in, u8 **out)
+{
+  static struct jpeg_decompress_struct dc; static jpeg_component_info comp; JSAMPARRAY op = out;
+  memset(&dc, 0, sizeof(dc)); memset(&comp, 0, sizeof(comp));
+  comp.downsampled_width = w; dc.max_v_samp_factor = max_v;
+  if (v2) { if (simd) jsimd_h2v2_fancy_upsample(&dc, &comp, in, &op); else h2v2_fancy_upsample(&dc, &comp, in, &op); }
+  else    { if (simd) jsimd_h2v1_fancy_upsample(&dc, &comp, in, &op); else h2v1_fancy_upsample(&dc, &comp, in, &op); }
+}
+void c05_plain_rows(int simd, int v2, unsigned outw, int max_v, u8 **in, u8 **out)
+{
+  static struct jpeg_decompress_struct dc; static jpeg_component_info comp; JSAMPARRAY op = out;
+  memset(&dc, 0, sizeof(dc)); memset(&comp, 0, sizeof(comp));
+  dc.output_width = outw; dc.max_v_samp_factor = max_v;
+  if (v2) { if (simd) jsimd_h2v2_upsample(&dc, &comp, in, &op); else h2v2_upsample(&dc, &comp, in, &op); }
+  else    { if (simd) jsimd_h2v1_upsample(&dc, &comp, in, &op); else h2v1_upsample(&dc, &comp, in, &op); }
+}
